@@ -10,7 +10,8 @@ oracle : brute force over all index names, written from the property: exact-name
 ID = "C14"
 MODULE = "PotasscoVerif.Props.C14"
 THEOREMS = ["PotasscoVerif.C14.C14_prefix_range", "PotasscoVerif.C14.C14_find_exact", "PotasscoVerif.C14.C14_find_prefix",
-            "PotasscoVerif.C14.C14_find_unknown", "PotasscoVerif.C14.C14_duplicate", "PotasscoVerif.C14.insert_spec"]
+            "PotasscoVerif.C14.C14_find_unknown", "PotasscoVerif.C14.C14_duplicate", "PotasscoVerif.C14.insert_spec",
+            "PotasscoVerif.C14.C14_refused_short_unchanged", "PotasscoVerif.C14.C14_refused_noalias_unchanged"]
 PARTIAL = {}
 BSIZES = (4096,)
 RULE = ("contexts of 1..12 options over an alphabet that forces heavy prefix sharing (names that are prefixes of other names, bytes 0x7e/0x7f/0x80/0xc3/0xff after a shared prefix, "
@@ -23,7 +24,9 @@ LEVEL_TEXT = ("For EVERY sorted index (insert_spec: every index that can be buil
               "all byte values: the prefix range equals the set of names starting with the key (C14_prefix_range, incl. bytes >= 0x7f), an exact name is resolved to its option for "
               "name / name-or-prefix / alias lookups (C14_find_exact), otherwise prefix lookups return the unique prefixed name, 'unknown' for none, 'ambiguous' with exactly the "
               "candidates for several, and tryFind succeeds in precisely the unique case (C14_find_prefix + definition of find/tryFind), non-prefix lookups of a missing name are "
-              "'unknown' (C14_find_unknown). Tied to the code by running generated contexts/queries through the real OptionContext and by a brute-force oracle.")
+              "'unknown' (C14_find_unknown). A refused add whose short name is the taken one, or that has no short name, leaves the context exactly as it was "
+              "(C14_refused_short_unchanged, C14_refused_noalias_unchanged): histories go on after a refusal and every later lookup is checked against the oracle; when only the long name is taken the code has "
+              "already entered the new short name (modelled: Ctx.afterRefused) — that context is not a successfully built one, later lookups on it are compared with the model only. Tied to the code by running generated contexts/queries through the real OptionContext and by a brute-force oracle.")
 LEVEL_NOTE = ("Proved about Model/OptIndex.lean (std::map modelled as a strictly sorted list under unsigned lexicographic order); model==code on ~5k (quick) / 120k (thorough) contexts "
               "with heavy prefix sharing and high bytes. Trusted: Lean kernel+axioms, harness, generator, reference() in props/c14.py.")
 
@@ -91,15 +94,20 @@ def reference(ops):
         unh = lambda h: b"" if h == "-" else bytes.fromhex(h)
         if f[0] == "o":
             nm, al = unh(f[1]), int(f[2])
-            if al and (b"-" + bytes([al])) in index: out.append("DUP"); break
-            if nm and (nm in index or (al and nm == b"-" + bytes([al]))): out.append("DUP"); break     # taken — also by the option's own short index name
+            # a refused add leaves a successfully built context as it was: lookups go on as before
+            if al and (b"-" + bytes([al])) in index: out.append("DUP"); continue
+            if nm and (nm in index or (al and nm == b"-" + bytes([al]))):     # taken — also by the option's own short index name
+                out.append("DUP")
+                if al: break      # long name taken, short name new: the code has entered the short name before it looks at the long one; what the context
+                                  # answers from here on is outside the claim (not a successfully built context) and is compared with the model only
+                continue
             if al: index[b"-" + bytes([al])] = nopt
             if nm: index[nm] = nopt
             nopt += 1; out.append("ok")
         elif f[0] == "a":
             nm, o_ = unh(f[1]), int(f[2])
             if o_ < nopt and nm:
-                if nm in index: out.append("DUP"); break
+                if nm in index: out.append("DUP"); continue
                 index[nm] = o_
             out.append("ok")
         else:
@@ -127,7 +135,7 @@ def evaluate(ctx, cases):
         want = reference(c["ops"])
         for tok in i.split(" "):
             ctx.dist["unknown" if tok.startswith("U") else "ambiguous" if tok.startswith("A") else "found" if tok.startswith("=") else tok] += 1
-        if i != want:
+        if " ".join(i.split(" ")[:len(want.split(" "))]) != want:
             gi, gw = i.split(" "), want.split(" ")
             j = next((x for x in range(min(len(gi), len(gw))) if gi[x] != gw[x]), min(len(gi), len(gw)))
             a_, b_ = (gi[j] if j < len(gi) else None), (gw[j] if j < len(gw) else None)
